@@ -157,6 +157,28 @@ pub fn run_history(hist: &[Action], st: &mut Stats) -> Result<Option<Registry>, 
 /// Run a list of command payloads on a fresh connection of the real implementation and compare
 /// the complete observable trace with the registry model.
 pub fn run_payloads(payloads: &[Vec<u8>], ignores: &[u8], st: &mut Stats) -> Result<Option<Registry>, Violation> {
+    run_payloads_opts(payloads, ignores, &RunOpts::default(), st)
+}
+
+/// how the client and the transport behave while a payload list is run
+#[derive(Clone, Copy, Debug)]
+pub struct RunOpts {
+    /// request k carries sequence id (k * seq_stride) mod 256
+    pub seq_stride: u8,
+    /// every read returns at most this many bytes
+    pub uniform_read: usize,
+    /// every transport write accepts at most this many bytes
+    pub write_cap: usize,
+    /// the client waits for every owed reply before it sends the next command
+    pub lockstep: bool,
+}
+impl Default for RunOpts {
+    fn default() -> Self {
+        RunOpts { seq_stride: 0, uniform_read: usize::MAX, write_cap: usize::MAX, lockstep: false }
+    }
+}
+
+pub fn run_payloads_opts(payloads: &[Vec<u8>], ignores: &[u8], opts: &RunOpts, st: &mut Stats) -> Result<Option<Registry>, Violation> {
     let mut reg = Registry::default();
     let mut cmds: Vec<ClientCmd> = Vec::new();
     let mut expected = vec![auth_cb()];
@@ -165,7 +187,7 @@ pub fn run_payloads(payloads: &[Vec<u8>], ignores: &[u8], st: &mut Stats) -> Res
     let mut lenient = false;
     for (step, payload) in payloads.iter().enumerate() {
         let routed = reg.route(payload);
-        cmds.push(ClientCmd::new(payload.clone()));
+        cmds.push(ClientCmd::new(payload.clone()).seq((step as u64 * opts.seq_stride as u64 % 256) as u8));
         match routed {
             Routed::Cb(cb) => {
                 if let Cb::Execute { id, .. } = &cb {
@@ -204,6 +226,11 @@ pub fn run_payloads(payloads: &[Vec<u8>], ignores: &[u8], st: &mut Stats) -> Res
     let stream = Arc::new(s.bytes);
     let mut sim = sim_for(&stream, vec![]);
     sim.log_ops = false;
+    sim.uniform_read = opts.uniform_read;
+    sim.write_cap = opts.write_cap;
+    if opts.lockstep && fatal_at.is_none() {
+        lockstep(&mut sim, &conv);
+    }
     let mut cfg = ConnCfg::new(std_behave());
     cfg.skip_iter = skip_iter;
     let o = run_conn(sim, cfg);
